@@ -166,6 +166,15 @@ Resolve(dir, spec, esm) ==
   IF IsErr(walk) \/ walk = <<>> THEN Err
   ELSE Front(walk) \o <<Last(walk) \o TsExt>>
 
+\* a specifier that already ends in a TypeScript module extension other than .ts (a file-form export_to such as
+\* `models.mts` is written verbatim, and so is the specifier) names that very file (allowImportingTsExtensions)
+MtsExt == <<".", "m", "t", "s">>
+ResolveX(dir, spec, esm) ==
+  LET s == IF esm THEN StripSuffixOnce(spec, JsExt) ELSE spec IN
+  IF EndsWith(s, MtsExt)
+  THEN LET walk == NormLoop(dir, Segments(s)) IN IF IsErr(walk) \/ walk = <<>> THEN Err ELSE walk
+  ELSE Resolve(dir, spec, esm)
+
 \* C08 for one pair, given the result `r` the implementation (or the model of it) produced
 C08_Holds(cwd, from, to, esm, r) ==
   LET nf == Normal(cwd, from)
